@@ -28,7 +28,7 @@ ASSUMPTIONS = [
     "sum -> sum of each 1-d integral times the lengths of the other sides.",
     "'relative or absolute error below 2^(10-p)' is read as |y - I| <= 2^(10-p) * max(|I|, 1).",
     "Domain actually sampled (the property's class is informal): polynomial degree <= 4 with small rational coefficients, "
-    "|a| <= 2, |b| <= 4, finite endpoints in [-3, 3] with length <= 4 (quad documents loss of accuracy on long intervals / many "
+    "|a| <= 2, |b| <= 8, finite endpoints in [-3, 3] with length <= 4 (quad documents loss of accuracy on long intervals / many "
     "oscillations / sharp peaks: those are not generated), real poles and complex poles at distance >= 1 from the path; "
     "infinite intervals only for exponentially decaying integrands and only with tanh-sinh (GaussLegendre is documented as "
     "handling infinite intervals worse); 3-dimensional integrals only with gauss-legendre at p <= 53 as the docstring advises.",
@@ -213,7 +213,7 @@ def g_pet(rng, trig=None, finite=True):
     deg = rng.choice([0, 1, 1, 2, 3, 4])
     P = rpoly(rng, deg)
     a = rng.choice([0, 1, -1, 2, -2]) * Fraction(1, rng.choice([1, 1, 2, 3])) if rng.random() < 0.8 else Fraction(0)
-    b = Fraction(rng.randint(1, 4), rng.choice([1, 1, 2, 3])) if trig != "none" else Fraction(0)
+    b = Fraction(rng.randint(1, 8), rng.choice([1, 1, 2, 3])) if trig != "none" else Fraction(0)
     if trig == "none" and a == 0 and rng.random() < 0.7:
         a = Fraction(rng.choice([1, -1]), rng.choice([1, 2, 3]))
     lo, hi = g_interval(rng)
